@@ -105,10 +105,10 @@ theorem C03_table_scripts :
       [.cwrite "_reactions" "pop", .rem],
       [.ins "readout", .cwrite "_readouts" "set"],
       [.cwrite "_readouts" "del", .rem],
-      [.check "_check_new_ids", .ins "surrogate", .write, .write, .write, .ins "surrogate",
+      [.check "_check_new_ids", .ins "surrogate", .write, .write, .write, .write, .ins "surrogate",
        .cwrite "_surrogates" "set"],
       [.guard "KeyError", .load "_surrogates", .load "_surrogates", .check "_check_new_ids", .write, .write, .write,
-       .rem, .ins "surrogate", .cwrite "_surrogates" "set"],
+       .write, .rem, .ins "surrogate", .cwrite "_surrogates" "set"],
       [.cwrite "_surrogates" "pop", .rem, .rem],
       [.ins "data", .cwrite "_data" "set"],
       [.guard "KeyError", .cwrite "_data" "set"],
@@ -160,13 +160,14 @@ theorem C03_table_check_args :
     outputs checked against the ids minus the old ones, overrides, old ids removed, new ids inserted, store.
     `remove_surrogate`: pop (KeyError for an unknown name) before any id is freed, then the name and every output.
     In both forms the passed object is COPIED before the overrides are written (`v1 = copy.copy(v1)`): the caller's
-    object keeps its content — the value semantics of the model's `Sur` arguments (F-C03-12).
+    object keeps its content, and the stoichiometry dictionaries (edited in place by `remove_variable` /
+    `make_parameter_dynamic`) are the model's own — the value semantics of the model's `Sur` arguments (F-C03-12).
     These are the bodies `addSurrogate` / `SurUpd.over`, `updateSurrogate` / `SurUpd.apply`, `removeSurrogate` follow. -/
 theorem C03_table_surrogate_bodies :
     Gen.surrogateBodies =
     [
-  ("add_surrogate", ["self._check_new_ids(names=[v0, *(v1.outputs if v3 is None else v3)], ctx='surrogate')", "self._insert_id(name=v0, ctx='surrogate')", "v1 = copy.copy(v1)", "if v2 is not None:; v1.args = v2", "if v3 is not None:; v1.outputs = v3", "if v4 is not None:; v1.stoichiometries = v4", "for v5 in v1.outputs:; self._insert_id(name=v5, ctx='surrogate')", "self._surrogates[v0] = v1", "return self"]),
-  ("update_surrogate", ["if v0 not in self._surrogates:; raise KeyError", "v5 = list(self._surrogates[v0].outputs)", "v1 = self._surrogates[v0] if v1 is None else copy.copy(v1)", "self._check_new_ids(names=v1.outputs if v3 is None else v3, ctx='surrogate', replaced=v5)", "if v2 is not None:; v1.args = v2", "if v3 is not None:; v1.outputs = v3", "if v4 is not None:; v1.stoichiometries = v4", "for v6 in v5:; self._remove_id(name=v6)", "for v6 in v1.outputs:; self._insert_id(name=v6, ctx='surrogate')", "self._surrogates[v0] = v1", "return self"]),
+  ("add_surrogate", ["self._check_new_ids(names=[v0, *(v1.outputs if v3 is None else v3)], ctx='surrogate')", "self._insert_id(name=v0, ctx='surrogate')", "v1 = copy.copy(v1)", "if v2 is not None:; v1.args = v2", "if v3 is not None:; v1.outputs = v3", "if v4 is not None:; v1.stoichiometries = v4", "v1.stoichiometries = {v5: dict(v6) for v5, v6 in v1.stoichiometries.items()}", "for v7 in v1.outputs:; self._insert_id(name=v7, ctx='surrogate')", "self._surrogates[v0] = v1", "return self"]),
+  ("update_surrogate", ["if v0 not in self._surrogates:; raise KeyError", "v5 = list(self._surrogates[v0].outputs)", "v1 = self._surrogates[v0] if v1 is None else copy.copy(v1)", "self._check_new_ids(names=v1.outputs if v3 is None else v3, ctx='surrogate', replaced=v5)", "if v2 is not None:; v1.args = v2", "if v3 is not None:; v1.outputs = v3", "if v4 is not None:; v1.stoichiometries = v4", "v1.stoichiometries = {v6: dict(v7) for v6, v7 in v1.stoichiometries.items()}", "for v8 in v5:; self._remove_id(name=v8)", "for v8 in v1.outputs:; self._insert_id(name=v8, ctx='surrogate')", "self._surrogates[v0] = v1", "return self"]),
   ("remove_surrogate", ["v1 = self._surrogates.pop(v0)", "self._remove_id(name=v0)", "for v2 in v1.outputs:; self._remove_id(name=v2)", "return self"])] := rfl
 
 /-- "validate first": no mutator has a rejecting statement after its first write, except the final
